@@ -4,6 +4,7 @@ package c19
 import (
 	"crypto/elliptic"
 	"fmt"
+	"math/big"
 	"math/rand"
 	"reflect"
 	"sync"
@@ -155,6 +156,32 @@ func shapeOf(rng *rand.Rand) gen.Shape {
 	return s
 }
 
+// emptyLocked leaves the allocation with an empty Locked slice that still owns a backing array:
+// what a parent channel looks like after all its sub-channels were settled.
+func emptyLocked(rng *rand.Rand, a *channel.Allocation) {
+	a.Locked = nil
+	k := 1 + rng.Intn(3)
+	var ids []channel.ID
+	for i := 0; i < k; i++ {
+		sa := gen.SubAlloc(rng, len(a.Assets), 2, false, func(r *rand.Rand) *big.Int { return big.NewInt(int64(1 + r.Intn(9))) })
+		ids = append(ids, sa.ID)
+		a.AddSubAlloc(sa)
+	}
+	for i, id := range ids {
+		_ = a.RemoveSubAlloc(a.Locked[indexOfSub(a, id)])
+		_ = i
+	}
+}
+
+func indexOfSub(a *channel.Allocation, id channel.ID) int {
+	for i := range a.Locked {
+		if a.Locked[i].ID == id {
+			return i
+		}
+	}
+	return 0
+}
+
 // subjects returns one value of the i-th kind (round robin over kinds so that every kind
 // gets its share of the budget).
 func subjects(r *ev.Run, rng *rand.Rand, i int) []subject {
@@ -167,10 +194,15 @@ func subjects(r *ev.Run, rng *rand.Rand, i int) []subject {
 	switch i % 10 {
 	case 0:
 		st := gen.State(rng, p, sh)
+		if rng.Intn(6) == 0 {
+			emptyLocked(rng, &st.Allocation)
+		}
 		return []subject{{"State", st, func() any { return st.Clone() }, func(a, b any) error { return a.(*channel.State).Equal(b.(*channel.State)) }}}
 	case 1:
 		a := gen.Allocation(rng, sh)
-		switch rng.Intn(6) {
+		switch rng.Intn(7) {
+		case 6:
+			emptyLocked(rng, a)
 		case 0:
 			a.Locked = []channel.SubAlloc{} // empty, not nil
 		case 1:
@@ -202,7 +234,9 @@ func subjects(r *ev.Run, rng *rand.Rand, i int) []subject {
 		return []subject{{"Params", p, func() any { return p.Clone() }, nil}}
 	case 4:
 		tx := gen.Transaction(gen.State(rng, p, sh), ps, rng.Uint64())
-		switch rng.Intn(8) {
+		switch rng.Intn(9) {
+		case 8:
+			emptyLocked(rng, &tx.State.Allocation)
 		case 0:
 			tx = channel.Transaction{}
 		case 1:
@@ -225,7 +259,18 @@ func subjects(r *ev.Run, rng *rand.Rand, i int) []subject {
 		case 6:
 			return []subject{{"CloneSource", sourceOf(m), func() any { return sourceOf(persistence.CloneSource(m)) }, nil}}
 		case 7:
-			return []subject{{"FromSource", sourceOf(m), func() any { c := persistence.FromSource(m, nil, nil); return sourceOf(c) }, nil}}
+			// FromSource must detach from every kind of source: a live machine, the result of
+			// CloneSource, channel data as a Restorer hands it out
+			var from channel.Source = m
+			switch rng.Intn(3) {
+			case 1:
+				from = persistence.CloneSource(m)
+				r.Count("FromSource_of_a_CloneSource_result", 1)
+			case 2:
+				from = persistence.FromSource(m, nil, nil)
+				r.Count("FromSource_of_channel_data", 1)
+			}
+			return []subject{{"FromSource", sourceOf(from), func() any { c := persistence.FromSource(from, nil, nil); return sourceOf(c) }, nil}}
 		default:
 			machineOps(r, w, e, rng)
 			return nil
